@@ -301,9 +301,13 @@ class as_format_mapping:
             # not found on any target
             raise KeyError(item)
 
-        # only non-empty text is translatable: gettext('') is the catalogue
-        # header, and unhashable values cannot be catalogue keys
-        if self.transform and isinstance(value, str) and value:
+        if self.transform:
+            try:
+                hash(value)
+            except TypeError:
+                # an unhashable value (an element found under the
+                # placeholder's name, say) cannot be a catalogue key
+                return value
             return self.transform(value)
         else:
             return value
